@@ -189,6 +189,15 @@ func (w *Worker) Open(ctx context.Context) (err error) {
 		})
 	}
 
+	// SourceTask.Close is a no-op (the worker owns the source's teardown), so
+	// the rollback above does NOT release an opened source. Without this, a
+	// DLQ that fails to open leaves the source plugin running and
+	// connector.Instance.connector set: every later Start fails with
+	// "connector is running" until the process restarts.
+	r.Append(func() error {
+		return w.tearDownSource(ctx)
+	})
+
 	err = w.DLQ.Open(ctx)
 	if err != nil {
 		return cerrors.Errorf("failed to open DLQ: %w", err)
